@@ -12,7 +12,8 @@
         every zarr-level write covers whole chunks of the target's grid (regular or rectilinear);
         at operation end the keys written cover each output's chunk grid exactly.
    C06  all writes of one key carry the same bytes (SHA-1), whenever and wherever the task is re-executed;
-        after the adversarial schedule every array holds what the reference run holds (fact `final` vs `ref`).
+        after the adversarial schedule every array holds what the reference run holds (fact `final` vs `ref`);
+        re-execution never deletes a chunk; distinct blocks of a random array are not byte-identical (fact `rnddup`).
    C12  the value written has exactly the shape of the region it is written into; declared shape/dtype/chunks =
         backing array's = computed result's (facts `decl`, `back`, `res`).
    C09  (resumed computation) an operation is skipped only if every output was complete in storage before the resume;
@@ -20,7 +21,7 @@
         no data key that existed before the resume is deleted.
 
    Input: JSON array of [plan |-> [ops: <<[name, nt, computed, outs: <<names>>]>>,
-                                  arrays: <<[name, prod, nkeys, decl, back, res, final, ref, complete, zerod]>>, resumed],
+                                  arrays: <<[name, prod, nkeys, decl, back, res, final, ref, complete, zerod, rnddup]>>, resumed],
                          events |-> << [ev, op, idx, kind, arr, key, data, hit, h, vshape, rshape, dims] >>]            *)
 EXTENDS Integers, Sequences, FiniteSets, TLC, Json, IOUtils
 CONSTANT Focus
@@ -84,6 +85,7 @@ Step ==
             ELSE Adv /\ UNCHANGED <<cur, writer, wrote, thisrun, held, startedOps, endedOps>>
        [] E.ev = "del" ->
             IF P9 /\ E.data THEN Fail("C09:ChunkDeleted")
+            ELSE IF P6 /\ E.data /\ Produced(E.arr) THEN Fail("C06:ChunkDeletedByReexecution")
             ELSE Adv /\ UNCHANGED <<cur, writer, wrote, thisrun, held, startedOps, endedOps>>
        [] E.ev = "awrite" ->
             IF ~Produced(E.arr) THEN Adv /\ UNCHANGED <<cur, writer, wrote, thisrun, held, startedOps, endedOps>>
@@ -102,6 +104,7 @@ Step ==
                THEN Fail("C09:SkippedIncompleteArray")
             ELSE IF P12 /\ \E a \in ArrNames : ~FactsOk(a) THEN Fail("C12:DeclaredMetadataUntrue")
             ELSE IF P6 /\ \E a \in ArrNames : ArrRec(a).ref # "" /\ ArrRec(a).final # ArrRec(a).ref THEN Fail("C06:FinalContentsDiffer")
+            ELSE IF P6 /\ \E a \in ArrNames : ArrRec(a).rnddup THEN Fail("C06:RandomBlocksNotDistinct")
             ELSE Adv /\ UNCHANGED <<cur, writer, wrote, thisrun, held, startedOps, endedOps>>
        [] OTHER -> Adv /\ UNCHANGED <<cur, writer, wrote, thisrun, held, startedOps, endedOps>>
 Next == Step
